@@ -16,4 +16,10 @@ for d in seeded/*/; do
 	id=$(python3 -c "import json,sys; print(json.load(open('$d/meta.json'))['property'])")
 	run /verif/${d}patch.diff $id
 done
+# refactorings that keep the property: must stay quiet
+for p in benign/*.patch; do
+	id=$(basename $p | cut -c1-3 | tr a-z A-Z)
+	out=$(WIDTH=160 tools/try_mutant.sh /verif/$p $id "$SECS")
+	if echo "$out" | grep -q "^OK"; then echo "QUIET   $id  $p"; else echo "ALARM   $id  $p"; echo "$out" | sed 's/^/        /'; fail=1; fi
+done
 exit $fail
